@@ -44,8 +44,13 @@ func Run(c *hx.Ctx) error {
 		if families[i].name == "file" {
 			families[i].weight = 0
 		}
+		// a WAL case replays a file through the real reader (~20 ms): a small share of the
+		// quick tier, the full share of the thorough one
+		if families[i].name == "wal" && c.Tier != "thorough" {
+			families[i].weight = 1
+		}
 	}
-	nFiles := c.Budget(120, 2500)
+	nFiles := c.Budget(40, 2500)
 	if c.N > 0 {
 		nFiles = c.N / 600
 	}
